@@ -74,6 +74,8 @@ def corr_chunk(args):
         # L5
         r = oracles.impl_models(text, H)
         if r[0] == "err":
+            if r[1] == "Timeout":
+                continue      # slow is not wrong: the case is skipped (telingo's clause unfolding can be exponential)
             dis.append({"layer": "L5", "text": text, "rules": rules, "what": "implementation raised " + r[1] + ": " + r[2]})
             continue
         atoms = oracles.atoms_of_rules(rules)
